@@ -5,7 +5,9 @@ handle_rpc_timeout itself awaits under timeout and maps a dropped sender to an e
 LeaderState field that (transitively) holds a client response sender is swept by tick against a
 deadline, or emptied by drain_read_buffer on step-down, or is in the listed set that relies on the API
 timeout alone; in the tick sweeps and in drain_read_buffer every sender taken out is answered; a new
-sender-holding field is picked up automatically and must satisfy the same table.
+sender-holding field is picked up automatically and must satisfy the same table; (c) the deadline of a queued
+element (WriteMetadata / PendingReadBatch / PendingLeaseRead / PostCommitEntry .deadline, the value tick compares with
+now) is assigned only before the element is queued - never through a reference into a LeaderState queue.
 Necessary conditions, not the whole behaviour (a dropped sender counts as a response: the receiver
 sees RecvError and the boundary maps it to an error)."""
 from .helpers_r1 import *
@@ -145,3 +147,59 @@ def run(ctx):
         ctx.check("C30-b", "%s#answers-what-it-takes-out" % fkey(fn), n_loops >= 1 and not any(i["key"].startswith(fkey(fn)) and not i["ok"] for i in ctx.instances if i["rule"] == "C30-b"),
                   "%d loop(s) over removed entries, each iteration replies (or re-queues)" % n_loops, "no reply loop found / a loop drops senders", "%s:%s" % (fn.file, fn.line))
     ctx.floor("C30-b", len(calls_matching(F.main_body(tick), r"Instant::now$")), 1, "clock read in tick (deadline sweeps)")
+
+
+# ---------------------------------------------------------------------------------------------- C30-c
+_run_ab = run
+
+
+def run(ctx):
+    _run_ab(ctx)
+    deadlines_fixed_at_insertion(ctx)
+
+
+def deadline_adts(F):
+    """ADTs of leader_state that carry a `deadline: Instant` next to client response senders (the queue element types)"""
+    out = []
+    for p, a in F.adts.items():
+        if not p.startswith("d_engine_core::raft_role::leader_state::") or p.endswith("::LeaderState"):
+            continue
+        fs = [(n, t) for v in a["variants"] for (n, t) in v["fields"]]
+        if any(n == "deadline" and "Instant" in t for (n, t) in fs):
+            out.append(p)
+    return sorted(out)
+
+
+def deadlines_fixed_at_insertion(ctx):
+    """C30-c the deadline of a queued request is fixed when it is queued: tick answers a queue element with an error once
+    now >= element.deadline, so 'answered within the configured deadline' needs the deadline never to move afterwards.  Every
+    assignment to `<queue element>.deadline` must target a value that is not (yet) reachable from a LeaderState field - a
+    write through `self.<queue>.entry(..).or_insert_with(..)`, `get_mut`, `iter_mut`, `values_mut` .. extends the wait of
+    requests that are already queued (each later arrival at the same key pushes the whole batch out: with a steady stream
+    of arrivals and no quorum the first request is never answered)."""
+    F = ctx.F
+    adts = deadline_adts(F)
+    ctx.floor("C30-c", len(adts), 3, "queue element types with a deadline (WriteMetadata, PendingReadBatch, PendingLeaseRead, PostCommitEntry)")
+    n_sites, n_ctor = 0, 0
+    for bid, b in F.bodies.items():
+        if b.crate != "d_engine_core" or is_test_body(b):
+            continue
+        for adt in adts:
+            short = adt.split("::")[-1]
+            n_ctor += len(agg_sites(b, adt))
+            for (bi, si, st) in assigns_field(b, short, "deadline"):
+                n_sites += 1
+                pl = st["lhs"] if si != "term" else st["dest"]
+                s = Slice(F, b)
+                s.local(pl["l"])
+                for (a_, f_, _v) in core.place_fields({"l": pl["l"], "pj": pl.get("pj", [])[:-1]}):
+                    s.sources.add(("field", a_, f_))
+                queued = sorted(x[2] for x in s.sources if x[0] == "field" and strip_generics(x[1]).endswith("leader_state::LeaderState"))
+                root = F.root_of[bid]
+                ctx.check("C30-c", "%s#%s.deadline#not-extended-in-queue" % (fkey(root), short), not queued,
+                          "the deadline is assigned before the element is queued",
+                          "%s.deadline is overwritten on an element that is already held in LeaderState.%s: every such write moves the expiry of requests that were queued "
+                          "earlier; tick only answers them once now >= deadline, so a steady stream of arrivals (no quorum, frozen read_index / commit index) keeps the first "
+                          "request waiting for ever" % (short, "/".join(queued)), loc(b, bi))
+    ctx.floor("C30-c", n_ctor, 3, "constructions of deadline-carrying queue elements")
+    ctx.note("C30-c: %d assignment(s) to a queue element's deadline outside its construction" % n_sites)
